@@ -2,6 +2,7 @@ import JetVerif.Model.Sexp
 import JetVerif.Model.Path
 import JetVerif.Model.Lex
 import Driver.Read
+import JetVerif.Model.Blocks
 import JetVerif.Model.Loaders
 import JetVerif.Model.SetM
 import JetVerif.Props.C20
@@ -185,6 +186,23 @@ def walkCmd (t : Sexp) : Sexp :=
       | .fuel => .list [.atom "fuel"]
     .list [.list [.atom "wf", Sexp.ofBool wfOk], res]
 
+/-- C08: the effective block table of every template of a store, computed by the model from each
+    template's own definitions and its extends/import links -/
+def blockTablesCmd (store : Sexp) : Except String Sexp := do
+  let files ← (match store with
+    | .list (.atom "store" :: fs) => fs.mapM fun q => match q with
+      | .list [p, .atom "err"] => do pure (← Read.asBytes p, (none : Option Tmpl))
+      | .list [p, t] => do pure (← Read.asBytes p, some (← Read.readTmpl t))
+      | _ => Read.fail "bad store entry"
+    | _ => Read.fail "bad store")
+  let rows := files.map fun (p, t) =>
+    match t with
+    | none => Sexp.list [.bytes p, .atom "err"]
+    | some _ =>
+      let tbl := Blocks.tableOf files 32 p
+      Sexp.list (.bytes p :: tbl.map fun (n, blk) => .list [.bytes n, .bytes blk.loc.path, Sexp.ofNat blk.loc.line])
+  pure (.list (.atom "tables" :: rows))
+
 def execDispatch (store entry exts esc globals vars data fuel : Sexp) : Sexp :=
   match execCmd store entry exts esc globals vars data fuel with
   | .ok r => r
@@ -203,6 +221,10 @@ def historyCmd (calls : List Sexp) : Sexp :=
 
 def dispatch : Sexp → Sexp
   | .list (.atom "history" :: calls) => historyCmd calls
+  | .list [.atom "blocktables", store, _] =>
+    match blockTablesCmd store with
+    | .ok r => r
+    | .error msg => .list [.atom "unsupported", .atom ("reader:" ++ (msg.replace " " "-"))]
   | .list [.atom "walk", .list [.atom "n", _, .atom "ParseError"]] => .list [.atom "parse-error"]
   | .list [.atom "walk", t] => walkCmd t
   | .list (.atom "setm" :: .atom dev :: .list (.atom "exts" :: exts) :: ops) => setmCmd (dev == "true") (bytesList exts) ops
